@@ -195,6 +195,14 @@ def gen_plan(seed, tier):
     elif k == "advance":
       st["dt"] = r.pick([0.5, 1, 2.5])
     steps.append(st)
+    rp = Rng(mix(seed, "portev", len(steps)))
+    if rp.chance(0.06):
+      # something local happens to the switch's ports (an interface is
+      # unplugged, or plugged back in): not a message, but what later
+      # requests that name the port are answered with depends on it
+      steps.append({"op": rp.pick(["del_port", "del_port", "add_port"]),
+                    "port": rp.randint(1, nports + 1),
+                    "flush": rp.chance(0.5)})
   steps.append({"op": "barrier", "xid": _xid(r), "flush": True})
   return {"prop": PROP, "seed": seed, "cfg": cfg, "steps": steps}
 
@@ -523,7 +531,9 @@ def _drive(sim, world, plan, known, hit_known):
         sim.drain()
         pending_flush = False
       raw = _frame(st["h"])
-      mp = model["ports"][st["port"]]
+      mp = model["ports"].get(st["port"])
+      if mp is None:
+        continue          # (unplugged meanwhile)
       if mp["config"] & W.PC_PORT_DOWN:
         continue          # a frame cannot arrive on a port that is down
       world.inject(st["port"], raw)
@@ -531,6 +541,23 @@ def _drive(sim, world, plan, known, hit_known):
         model["rx"][st["port"]][0] += 1
         model["rx"][st["port"]][1] += len(raw)
         model["lookups"] += 1
+    elif op in ("del_port", "add_port"):
+      if pending_flush:
+        sim.drain()
+        pending_flush = False
+      pno = st["port"]
+      if op == "del_port" and pno in model["ports"]:
+        sw.delete_port(pno)
+        del model["ports"][pno]
+        del model["rx"][pno]
+        sim.probes["port_deleted_locally"] += 1
+      elif op == "add_port" and pno not in model["ports"]:
+        np_ = sw.generate_port(pno, name="p%d" % pno)
+        sw.add_port(np_)
+        model["ports"][pno] = {"hw": np_.hw_addr.toRaw(),
+                               "config": np_.config, "state": np_.state}
+        model["rx"][pno] = [0, 0]
+        sim.probes["port_added_locally"] += 1
     elif op == "advance":
       sim.advance(st["dt"])
     if st.get("flush"):
